@@ -454,7 +454,7 @@ func c19StoredUnderNilGuard(ctx *ssa.Call, d2 *ssa.Parameter, f *ssa.Function) b
 				continue
 			}
 			bo, ok := ifi.Cond.(*ssa.BinOp)
-			if !ok || bo.Op != token.EQL || !(isNilConst(bo.Y) || isNilConst(bo.X)) {
+			if !ok || (bo.Op != token.EQL && bo.Op != token.NEQ) || !(isNilConst(bo.Y) || isNilConst(bo.X)) {
 				continue
 			}
 			x := bo.X
@@ -467,7 +467,12 @@ func c19StoredUnderNilGuard(ctx *ssa.Call, d2 *ssa.Parameter, f *ssa.Function) b
 					isD2 = true
 				}
 			}
-			if isD2 && guardedByEdge(ifi, 0, st) {
+			// the nil edge: true edge of d2 == nil, false edge of d2 != nil
+			nilEdge := 0
+			if bo.Op == token.NEQ {
+				nilEdge = 1
+			}
+			if isD2 && guardedByEdge(ifi, nilEdge, st) {
 				guarded = true
 			}
 		}
@@ -854,7 +859,7 @@ func ruleR19_3(r *Run) {
 		for _, fn := range closures(cv) {
 			for _, c := range calls(fn) {
 				callee := c.Common().StaticCallee()
-				if callee == nil || callee.Name() != "Compare" || callee.Pkg == nil || callee.Pkg.Pkg.Path() != "bytes" {
+				if callee == nil || (callee.Name() != "Compare" && callee.Name() != "Equal") || callee.Pkg == nil || callee.Pkg.Pkg.Path() != "bytes" {
 					continue
 				}
 				ld, ok := stripConv(c.Common().Args[0]).(*ssa.UnOp)
